@@ -161,7 +161,7 @@ theorem externalProblems_panic (t : ExternalTask) (fuel : Nat) (s : String) (h :
         (do
           let rightTh ← theoryTranslate t t.phMap fuel t.program
           let right := (controlTranslate t.userGuide.publicPreds rightTh).map fun a =>
-            { a with formula := a.formula.renamePreds (t.specPrivate.filter (· ∈ t.progPrivate)) }
+            { a with formula := a.formula.renamePreds t.clashMap }
           let ugAss ← t.userGuide.formulas.foldl (ugAssStep t.userGuide t.phMap) (.ok [])
           let taken := right.foldl (fun acc a => ext acc a.formula.preds)
             (left.foldl (fun acc a => ext acc a.formula.preds) t.userGuide.inputs)
